@@ -22,7 +22,9 @@ FUNCTIONS = ['pymeeus/Epoch.py:Epoch.dow', 'pymeeus/Epoch.py:Epoch.get_doy', 'py
              'pymeeus/Epoch.py:Epoch.apparent_sidereal_time', 'pymeeus/Epoch.py:Epoch.mjd',
              'pymeeus/Epoch.py:Epoch.get_date', 'pymeeus/Epoch.py:Epoch.__call__', 'pymeeus/base.py:iint',
              'pymeeus/base.py:TOL', 'pymeeus/Epoch.py:DAY2SEC', 'pymeeus/Epoch.py:DAY2MIN',
-             'pymeeus/Epoch.py:DAY2HOURS']
+             'pymeeus/Epoch.py:DAY2HOURS', 'pymeeus/Coordinates.py:true_obliquity', 'pymeeus/Coordinates.py:mean_obliquity',
+             'pymeeus/Coordinates.py:nutation_longitude', 'pymeeus/Coordinates.py:nutation_obliquity',
+             'pymeeus/Coordinates.py:NUTATION_ARG_TABLE', 'pymeeus/Coordinates.py:NUTATION_SINE_COEF_TABLE']
 
 MANIFEST = dict(
     text=("Lean 4 theorems (Props/C16.lean) about the exact-arithmetic model (templates/EpochCal.lean) of Epoch.dow, "
@@ -31,8 +33,12 @@ MANIFEST = dict(
           "on a civil day, +1 per day, Zeller-style Gregorian weekday after 1582-10-15; get_doy = day-number difference to "
           "1 January + 1 in both calendars, 365/366 (355 in 1582) on 31 December, doy2date inverts get_doy, year() = "
           "calendar year + elapsed fraction (floor = year, strictly increasing); mean sidereal time in [0,1) and its rate "
-          "inside a UT day. NOT carried by any theorem, covered by (S)+(I) only: the 1e-7-day agreement with the IAU 1982 "
-          "expression and the apparent-sidereal-time clause (nutation series, cos). The model is tied to /repo by "
+          "inside a UT day; |mean_sidereal_time - IAU 1982 (Meeus 12.4)| <= 4.3e-8 day modulo whole turns for EVERY rational JDE in "
+          "[0, 5.4e6] (difference polynomial + monomial bounds). On the real-number instantiation of the same template text, with "
+          "C08's nutation/obliquity model: apparent - mean = dpsi*3600*cos(eps)/15/86400 exactly; |apparent - mean| <= 1.345 s for "
+          "|T| <= 40 centuries whatever obliquity is passed; < 1.2 s with the library's own true obliquity for years 0..2500 "
+          "(-20 <= T <= 5). NOT carried by a theorem: the 1.2 s bound between year 2500 and 5970 (holds on every sampled instant; "
+          "an amplitude-sum bound cannot reach it) — beyond JDE 3.9e6 it fails on the real code (listed finding). The model is tied to /repo by "
           "running its binary64 and exact instantiations against the real code: sampled in quick, every civil date "
           "-4712..6000 (weekday, day of year both ways, year) in thorough."),
     note=("Trusted: Lean kernel, Mathlib, axioms propext/Classical.choice/Quot.sound; the hand-written model incl. the "
